@@ -30,7 +30,7 @@ def install_std(it):
         return v
     it.ext_modules["copy"] = Namespace("copy", copy=Native(_copy, "copy.copy"))
     it.ext_modules["collections"] = Namespace(
-        "collections", Counter=TypeTag("Counter", lambda o: isinstance(o, collections.Counter),
+        "collections", ChainMap=Native(lambda ex, *maps: dict(collections.ChainMap(*[dict(m) for m in maps])), "collections.ChainMap (first mapping wins; contract of the stdlib class)"), Counter=TypeTag("Counter", lambda o: isinstance(o, collections.Counter),
                                        lambda ex, a=None: collections.Counter(a) if a is not None else collections.Counter()))
     it.ext_modules["functools"] = Namespace("functools", wraps=Native(lambda ex, f: Native(lambda ex2, g: g, "wraps-inner"), "wraps"))
 
